@@ -1308,7 +1308,7 @@ def run(ctx):
                     ' size>2/threshold on %d transitions, shortest stream %d' % (tap.size_occ, len(tap.witness[0]))
                     if tap.witness else ''))
         if mode == 'size':
-            row = {'threshold': thr, 'w': spec.wf, '2/threshold': 2 / thr, 'max_additions': depth,
+            row = {'threshold': thr, 'w': spec.wf, '2/threshold': float(2 / make_threshold(thr)), 'max_additions': depth,
                    'abstract_states': res.states, 'transitions_exceeding_bound': tap.size_occ}
             if tap.witness:
                 row.update({'shortest_violating_stream': ''.join(tap.witness[0]) if all(
